@@ -520,7 +520,7 @@ theorem spawnTry_succ (rec : Rec) (u n : Nat) (s : State) :
         | (none, s1) => spawnTry rec u n s1
         | (some pid, s1) =>
           if (callHook u "after_spawn" s1).1 = true then
-            (.started s1.k.now, (notify u "spawn" (some pid) "-" (callHook u "after_spawn" s1).2).2)
+            (.started s.k.now, (notify u "spawn" (some pid) "-" (callHook u "after_spawn" s1).2).2)
           else
             (.rFalse,
               (armTop (newTop [.popProc u pid] (callHook u "after_spawn" s1).2).1
@@ -534,21 +534,20 @@ theorem spawnTry_succ (rec : Rec) (u n : Nat) (s : State) :
   cases nextWid (getW u s).1.np (usedWids u s).1 with
   | none => rfl
   | some wid =>
-    simp only [e2]
+    have e3 : (nowMs s).2 = s := rfl
+    have e4 : (nowMs s).1 = s.k.now := rfl
+    simp only [e2, e3, e4]
     cases spawnAdopt u wid s with
     | mk p s1 =>
       cases p with
       | none => rfl
       | some pid =>
         simp only
-        have e3 : (nowMs s1).2 = s1 := rfl
         cases hr : (callHook u "after_spawn" s1).1
-        · erw [if_pos (by rw [e3, hr]; rfl)]
+        · erw [if_pos (by rfl)]
           simp
-          rfl
-        · erw [if_neg (by rw [e3, hr]; simp)]
+        · erw [if_neg (by simp)]
           simp
-          exact ⟨rfl, rfl⟩
 
 theorem spawnAdopt_none_evs (u wid : Nat) (s s1 : State) (h : spawnAdopt u wid s = (none, s1)) :
     Keep s s1 ∧ evsOf s1 = evsOf s ∧ s1.ws = s.ws := by
